@@ -1,0 +1,524 @@
+//! Verification hook (feature `isographlabs_isograph_verif` only).
+//!
+//! `verif_generate_and_dump` runs the artifact generator and returns, next to the artifacts, one
+//! line per generated operation (entrypoint `E`, refetch / imperatively loaded query `R`) and per
+//! parameter type (`P`), holding exactly the values that were handed to `generate_query_text`,
+//! `generate_normalization_ast_text`, `generate_operation_text`, `generate_raw_response_type` and
+//! `generate_client_selectable_parameter_type` — recorded at the call sites — in the wire
+//! encoding of `isograph_schema::verif`.  Nothing here changes behaviour.
+use std::{collections::BTreeSet, fmt::Write};
+
+use common_lang_types::{
+    ArtifactPathAndContent, DiagnosticVecResult, EntityName, EntityNameAndSelectableName,
+    QueryOperationName, SelectableName, WithEmbeddedLocation,
+};
+use isograph_config::PersistedDocumentsHashAlgorithm;
+use isograph_lang_types::{
+    ClientScalarSelectableDirectiveSet, DefinitionLocation, EntrypointDirectiveSet,
+    ObjectSelectionDirectiveSet, ScalarSelectionDirectiveSet, SelectionSet, SelectionType,
+    VariableDeclaration, VariableNameWrapper,
+};
+use isograph_schema::{
+    CompilationProfile, ContainsIsoStats, IsographDatabase, MergedSelectionMap,
+    MergedServerSelection, TargetPlatform, flattened_entity_named, flattened_selectable_named,
+    selectable_named,
+    verif::{
+        verif_collect_names, verif_hex, verif_key_ranks, verif_note, verif_start, verif_take,
+        verif_wire_map, verif_wire_type, verif_wire_variable_declarations,
+    },
+};
+
+use crate::{
+    format_parameter_type::format_parameter_type, persisted_documents::PersistedDocuments,
+};
+
+fn wire_map_alone(map: &MergedSelectionMap) -> String {
+    let ranks = verif_key_ranks(&[map]);
+    let mut out = String::new();
+    verif_wire_map(&mut out, map, &ranks);
+    out
+}
+
+/// Inputs of `generate_query_text(.., Format::Pretty)`.
+pub(crate) fn rec_query<'a>(
+    query_name: QueryOperationName,
+    selection_map: &MergedSelectionMap,
+    query_variables: impl Iterator<Item = &'a VariableDeclaration>,
+) {
+    let mut out = format!(" {}", verif_hex(&query_name.to_string()));
+    verif_wire_variable_declarations(&mut out, query_variables);
+    verif_note("q", out);
+    verif_note("qmap", wire_map_alone(selection_map));
+}
+
+/// Input of `generate_normalization_ast_text` (which is handed `.values()` of this map).
+pub(crate) fn rec_norm(selection_map: &MergedSelectionMap) {
+    verif_note("nmap", wire_map_alone(selection_map));
+}
+
+/// Inputs of `generate_operation_text`.
+pub(crate) fn rec_operation_text<'a>(
+    query_name: QueryOperationName,
+    selection_map: &MergedSelectionMap,
+    query_variables: impl Iterator<Item = &'a VariableDeclaration>,
+    root_entity: EntityName,
+    persisted_documents: &Option<PersistedDocuments>,
+) {
+    let mut out = format!(" {}", verif_hex(&query_name.to_string()));
+    verif_wire_variable_declarations(&mut out, query_variables);
+    let _ = write!(out, " {}", verif_hex(&root_entity.to_string()));
+    match persisted_documents {
+        Some(pd) => {
+            let _ = write!(
+                out,
+                " p1 {} {}",
+                match pd.options.algorithm {
+                    PersistedDocumentsHashAlgorithm::Md5 => "md5",
+                    PersistedDocumentsHashAlgorithm::Sha256 => "sha256",
+                },
+                u8::from(pd.options.include_extra_info)
+            );
+        }
+        None => out.push_str(" p0"),
+    }
+    verif_note("o", out);
+    verif_note("omap", wire_map_alone(selection_map));
+}
+
+/// Inputs of `generate_raw_response_type`, plus the schema facts it looks up.
+pub(crate) fn rec_raw<TCompilationProfile: CompilationProfile>(
+    db: &IsographDatabase<TCompilationProfile>,
+    parent_object_entity_name: EntityName,
+    selection_map: &MergedSelectionMap,
+) {
+    verif_note(
+        "r",
+        format!(" {}", verif_hex(&parent_object_entity_name.to_string())),
+    );
+    verif_note("rmap", wire_map_alone(selection_map));
+    verif_note(
+        "schema",
+        schema_table(db, parent_object_entity_name, selection_map),
+    );
+}
+
+/// `(entity, field) -> (kind: scalar / concrete object / abstract object, type annotation, inner
+/// text)` for every entity reachable from the
+/// root / the inline-fragment types through fields named in the map, and every field name in it.
+fn schema_table<TCompilationProfile: CompilationProfile>(
+    db: &IsographDatabase<TCompilationProfile>,
+    root: EntityName,
+    selection_map: &MergedSelectionMap,
+) -> String {
+    let mut fields = vec![];
+    let mut entities = vec![root];
+    verif_collect_names(selection_map, &mut fields, &mut entities);
+    if !entities.contains(&root) {
+        entities.push(root);
+    }
+    let mut rows: Vec<String> = vec![];
+    let mut index = 0;
+    while index < entities.len() {
+        let entity = entities[index];
+        index += 1;
+        for field in fields.iter() {
+            let Some(selectable) = flattened_selectable_named(db, entity, *field) else {
+                continue;
+            };
+            let selectable = selectable.lookup(db);
+            let Ok(type_) = selectable.target_entity.item.as_ref() else {
+                continue;
+            };
+            let target = type_.inner().0;
+            let Some(target_entity) = flattened_entity_named(db, target) else {
+                continue;
+            };
+            let selection_info = target_entity.lookup(db).selection_info;
+            let is_scalar = selection_info.as_scalar().is_some();
+            let mut row = format!(
+                " {} {} {}",
+                verif_hex(&entity.to_string()),
+                verif_hex(&field.to_string()),
+                match selection_info.as_object() {
+                    // object-typed field: is the target entity concrete?
+                    Some(info) if info.is_concrete.0 => "c",
+                    Some(_) => "a",
+                    None => "s",
+                }
+            );
+            verif_wire_type(&mut row, type_);
+            if is_scalar {
+                let inner_text = TCompilationProfile::TargetPlatform::get_inner_text_for_selectable(
+                    db,
+                    selectable.parent_entity_name.item,
+                    selectable.name.item,
+                );
+                let _ = write!(row, " {}", verif_hex(&inner_text.to_string()));
+            } else {
+                row.push_str(" -");
+                if !entities.contains(&target) {
+                    entities.push(target);
+                }
+            }
+            rows.push(row);
+        }
+    }
+    let mut out = format!(" {}", rows.len());
+    for row in rows {
+        out.push_str(&row);
+    }
+    out
+}
+
+/// What `generate_refetch_query_artifact_import` is given: per refetch query the reachable
+/// variable names and the variables used by the wrapping fields.
+pub(crate) fn rec_refetch_imports(
+    refetch_variables: Vec<(Vec<VariableNameWrapper>, Vec<VariableNameWrapper>)>,
+) {
+    let mut out = format!(" {}", refetch_variables.len());
+    for (reachable, from_field) in refetch_variables {
+        let _ = write!(out, " {}", reachable.len());
+        for v in reachable {
+            let _ = write!(out, " {}", verif_hex(&v.to_string()));
+        }
+        let _ = write!(out, " {}", from_field.len());
+        for v in from_field {
+            let _ = write!(out, " {}", verif_hex(&v.to_string()));
+        }
+    }
+    verif_note("refs", out);
+}
+
+/// What `entrypoint_file_content` is given besides the operation text and the refetch imports.
+pub(crate) fn rec_entrypoint_meta(
+    parent_type_name: EntityName,
+    field_name: SelectableName,
+    ts_extension: &str,
+    concrete_type: EntityName,
+    directive_set: &EntrypointDirectiveSet,
+    field_directive_set: &ClientScalarSelectableDirectiveSet,
+) {
+    let (lazy_normalization, lazy_reader) = match directive_set {
+        EntrypointDirectiveSet::LazyLoad(d) => (d.lazy_load.normalization, d.lazy_load.reader),
+        EntrypointDirectiveSet::None(_) => (false, false),
+    };
+    verif_note(
+        "meta",
+        format!(
+            " {} {} {} {} {} {} {}",
+            verif_hex(&parent_type_name.to_string()),
+            verif_hex(&field_name.to_string()),
+            verif_hex(ts_extension),
+            verif_hex(&concrete_type.to_string()),
+            u8::from(lazy_normalization),
+            u8::from(lazy_reader),
+            match field_directive_set {
+                ClientScalarSelectableDirectiveSet::None(_) => 0,
+                ClientScalarSelectableDirectiveSet::Component(_) => 1,
+            }
+        ),
+    );
+}
+
+/// All printer inputs of one entrypoint (`E`) / refetch query (`R`) have been recorded.
+pub(crate) fn rec_flush(kind: &str) {
+    verif_note("flush", kind.to_string());
+}
+
+/// Schema facts for the maps of a refetch query (the C11 oracle reads the concreteness of the
+/// field types from it).
+pub(crate) fn rec_schema<TCompilationProfile: CompilationProfile>(
+    db: &IsographDatabase<TCompilationProfile>,
+    root_entity: EntityName,
+    selection_map: &MergedSelectionMap,
+) {
+    verif_note("schema", schema_table(db, root_entity, selection_map));
+}
+
+/// What the refetch-query file is given besides operation text and normalization AST.
+pub(crate) fn rec_refetch_meta(
+    parent_type_name: EntityName,
+    field_name: SelectableName,
+    index: usize,
+    ts_extension: &str,
+    root_entity: EntityName,
+) {
+    verif_note(
+        "meta",
+        format!(
+            " {} {} {} {} {}",
+            verif_hex(&parent_type_name.to_string()),
+            verif_hex(&field_name.to_string()),
+            index,
+            verif_hex(ts_extension),
+            verif_hex(&root_entity.to_string()),
+        ),
+    );
+}
+
+fn wire_description(out: &mut String, description: Option<String>) {
+    match description {
+        Some(d) => {
+            let _ = write!(out, " d1 {}", verif_hex(&d));
+        }
+        None => out.push_str(" d0"),
+    }
+}
+
+/// The reader selection set as the parameter-type printer resolves it against the schema.
+fn wire_param_selection_set<TCompilationProfile: CompilationProfile>(
+    db: &IsographDatabase<TCompilationProfile>,
+    out: &mut String,
+    parent: EntityName,
+    selection_set: &WithEmbeddedLocation<SelectionSet>,
+) {
+    let _ = write!(out, " {}", selection_set.item.selections.len());
+    for selection in selection_set.item.selections.iter() {
+        let selectable = selectable_named(db, parent, selection.item.name())
+            .as_ref()
+            .ok()
+            .and_then(|x| x.as_ref());
+        let Some(selectable) = selectable else {
+            let _ = write!(out, " xx {}", verif_hex(&selection.item.name().to_string()));
+            continue;
+        };
+        match &selection.item {
+            SelectionType::Scalar(scalar) => {
+                let name_or_alias = scalar.name_or_alias().item.to_string();
+                match selectable {
+                    DefinitionLocation::Server(s) => {
+                        let s = s.lookup(db);
+                        let _ = write!(out, " ss {}", verif_hex(&name_or_alias));
+                        wire_description(out, s.description.map(|d| d.item.to_string()));
+                        match s.target_entity.item.as_ref() {
+                            Ok(t) => verif_wire_type(out, t),
+                            Err(_) => out.push_str(" s -"),
+                        }
+                        let inner_text =
+                            TCompilationProfile::TargetPlatform::get_inner_text_for_selectable(
+                                db,
+                                s.parent_entity_name.item,
+                                s.name.item,
+                            );
+                        let _ = write!(
+                            out,
+                            " {} {}",
+                            verif_hex(&inner_text.to_string()),
+                            u8::from(selection.item.is_updatable())
+                        );
+                    }
+                    DefinitionLocation::Client(SelectionType::Scalar(c)) => {
+                        let c = c.lookup(db);
+                        let _ = write!(out, " cs {}", verif_hex(&name_or_alias));
+                        wire_description(out, c.description.map(|d| d.item.to_string()));
+                        let _ = write!(
+                            out,
+                            " {} {}",
+                            verif_hex(&c.parent_entity_name.to_string()),
+                            verif_hex(&c.name.to_string())
+                        );
+                        match scalar.scalar_selection_directive_set {
+                            ScalarSelectionDirectiveSet::None(_) => out.push_str(" n"),
+                            ScalarSelectionDirectiveSet::Updatable(_) => out.push_str(" u"),
+                            ScalarSelectionDirectiveSet::Loadable(_) => {
+                                let provided: Vec<_> = c
+                                    .arguments
+                                    .iter()
+                                    .filter(|definition| {
+                                        scalar
+                                            .arguments
+                                            .iter()
+                                            .any(|arg| definition.name.item.0 == arg.item.name.item)
+                                    })
+                                    .collect();
+                                let _ = write!(out, " l {}", provided.len());
+                                for arg in provided {
+                                    let _ = write!(
+                                        out,
+                                        " {} {} {}",
+                                        verif_hex(&arg.name.item.to_string()),
+                                        u8::from(arg.type_.item.is_nullable()),
+                                        verif_hex(&format_parameter_type(db, &arg.type_.item, 1))
+                                    );
+                                }
+                            }
+                        }
+                    }
+                    DefinitionLocation::Client(SelectionType::Object(_)) => {
+                        let _ = write!(out, " xx {}", verif_hex(&name_or_alias));
+                    }
+                }
+            }
+            SelectionType::Object(object) => {
+                let name_or_alias = object.name_or_alias().item.to_string();
+                let updatable = matches!(
+                    object.object_selection_directive_set,
+                    ObjectSelectionDirectiveSet::Updatable(_)
+                );
+                match selectable {
+                    DefinitionLocation::Server(s) => {
+                        let s = s.lookup(db);
+                        let Ok(t) = s.target_entity.item.as_ref() else {
+                            let _ = write!(out, " xx {}", verif_hex(&name_or_alias));
+                            continue;
+                        };
+                        let _ = write!(out, " so {}", verif_hex(&name_or_alias));
+                        wire_description(out, s.description.map(|d| d.item.to_string()));
+                        verif_wire_type(out, t);
+                        let _ = write!(out, " {}", u8::from(updatable));
+                        wire_param_selection_set(db, out, t.inner().0, &object.selection_set);
+                    }
+                    DefinitionLocation::Client(SelectionType::Object(c)) => {
+                        let c = c.lookup(db);
+                        let _ = write!(out, " co {}", verif_hex(&name_or_alias));
+                        wire_description(out, c.description.map(|d| d.item.to_string()));
+                        verif_wire_type(out, &c.target_entity);
+                        let _ = write!(
+                            out,
+                            " {} {} {}",
+                            verif_hex(&c.parent_entity_name.to_string()),
+                            verif_hex(&c.name.to_string()),
+                            u8::from(updatable)
+                        );
+                        wire_param_selection_set(
+                            db,
+                            out,
+                            c.target_entity.inner().0,
+                            &object.selection_set,
+                        );
+                    }
+                    DefinitionLocation::Client(SelectionType::Scalar(_)) => {
+                        let _ = write!(out, " xx {}", verif_hex(&name_or_alias));
+                    }
+                }
+            }
+        }
+    }
+}
+
+/// Inputs and by-products of `generate_eager_reader_param_type_artifact`.
+#[expect(clippy::too_many_arguments)]
+pub(crate) fn rec_param_type<TCompilationProfile: CompilationProfile>(
+    db: &IsographDatabase<TCompilationProfile>,
+    parent_entity_name: EntityName,
+    selectable_name: SelectableName,
+    ts_extension: &str,
+    has_variable_definitions: bool,
+    selection_set: &WithEmbeddedLocation<SelectionSet>,
+    param_type_imports: &BTreeSet<EntityNameAndSelectableName>,
+    loadable_fields: &BTreeSet<EntityNameAndSelectableName>,
+    updatable_fields: bool,
+) {
+    let mut out = format!(
+        " {} {} {} {}",
+        verif_hex(&parent_entity_name.to_string()),
+        verif_hex(&selectable_name.to_string()),
+        verif_hex(ts_extension),
+        u8::from(has_variable_definitions)
+    );
+    wire_param_selection_set(db, &mut out, parent_entity_name, selection_set);
+    for set in [param_type_imports, loadable_fields] {
+        let _ = write!(out, " {}", set.len());
+        for item in set.iter() {
+            let _ = write!(
+                out,
+                " {} {}",
+                verif_hex(&item.parent_entity_name.to_string()),
+                verif_hex(&item.selectable_name.to_string())
+            );
+        }
+    }
+    let _ = write!(out, " {}", u8::from(updatable_fields));
+    verif_note("P", out);
+}
+
+fn assemble(events: Vec<(String, String)>, header: Option<String>) -> Vec<String> {
+    let header = match header {
+        Some(h) => format!(" h1 {}", verif_hex(&h)),
+        None => " h0".to_string(),
+    };
+    let mut lines = vec![];
+    let mut pending: Vec<(String, String)> = vec![];
+    for (tag, value) in events {
+        match tag.as_str() {
+            "flush" => {
+                let get = |t: &str| {
+                    pending
+                        .iter()
+                        .find(|(tag, _)| tag == t)
+                        .map(|(_, v)| v.clone())
+                };
+                let qmap = get("qmap").unwrap_or_default();
+                let same = |m: Option<String>| match m {
+                    Some(m) if m == qmap => " =".to_string(),
+                    Some(m) => m,
+                    None => " ?".to_string(),
+                };
+                let mut line = format!("{value}{}{header}", get("meta").unwrap_or_default());
+                let _ = write!(
+                    line,
+                    " K {} Q{}{} N{} O{}{}",
+                    verif_hex(&get("opkind").unwrap_or_default()),
+                    get("q").unwrap_or_default(),
+                    qmap,
+                    same(get("nmap")),
+                    get("o").unwrap_or_default(),
+                    same(get("omap")),
+                );
+                if value == "E" {
+                    let _ = write!(
+                        line,
+                        " F{} R{}{}",
+                        get("refs").unwrap_or_default(),
+                        get("r").unwrap_or_default(),
+                        same(get("rmap")),
+                    );
+                }
+                let _ = write!(line, " S{}", get("schema").unwrap_or_default());
+                lines.push(line);
+                pending.clear();
+            }
+            "P" => lines.push(format!("P{value}{header}")),
+            _ => pending.push((tag, value)),
+        }
+    }
+    lines
+}
+
+/// Run the artifact generator once; return its result and the dump lines.
+#[expect(clippy::type_complexity)]
+pub fn verif_generate_and_dump<TCompilationProfile: CompilationProfile>(
+    db: &IsographDatabase<TCompilationProfile>,
+) -> (
+    DiagnosticVecResult<(Vec<ArtifactPathAndContent>, ContainsIsoStats)>,
+    Vec<String>,
+) {
+    verif_start();
+    let result = crate::get_artifact_path_and_content(db);
+    let events = verif_take();
+    let header = db
+        .get_isograph_config()
+        .options
+        .generated_file_header
+        .map(|h| h.to_string());
+    (result, assemble(events, header))
+}
+
+/// One line per entrypoint, refetch query and parameter type the artifact generator emits.
+pub fn verif_dump_merged<TCompilationProfile: CompilationProfile>(
+    db: &IsographDatabase<TCompilationProfile>,
+) -> Vec<String> {
+    verif_generate_and_dump(db).1
+}
+
+/// `generate_normalization_ast_text` for the harness (alias engine).
+pub fn verif_normalization_ast_text(
+    selections: &[MergedServerSelection],
+    indentation_level: u8,
+) -> String {
+    crate::normalization_ast_text::generate_normalization_ast_text(
+        selections.iter(),
+        indentation_level,
+    )
+    .0
+}
